@@ -76,6 +76,12 @@ CLAIMED.update({
             "Observations compared as per-step multisets with ids renamed; random invocation policy excluded.", "DESIGN.md 4/C11"),
 })
 
+CLAIMED.update({
+    "C06": ("property-based concurrency testing: generated in-flight states followed by a concurrent batch of Router.Close / RemoveRealm with other operations under varied GOMAXPROCS, virtual time and the race detector; oracle = Close returns, process alive after all timers, clients told or closed, late attaches refused, no goroutine left",
+            "Exploration: each case runs in a disposable worker inside a synctest bubble (24 virtual hours after the shutdown, so late timer panics are seen), par cases 3 times, a third of the shards under -race; leaks and deadlocks are verdicts of their own. Schedules are sampled, not enumerated.",
+            "Interleavings come from the Go scheduler; virtual time makes timer-vs-shutdown orders reachable. A window narrower than scheduler granularity can be missed.", "DESIGN.md 4/C06"),
+})
+
 NOT_YET = {}
 
 def main():
